@@ -14,7 +14,12 @@ Definition benign {A} (r : result A) : Prop :=
 
 Definition has_lengths (cfg : cfgT) : Prop := forall n c, cfg_get cfg n = Some c -> f_len c <> None.
 
-Theorem C07_loads_total : forall cfg cd hexbm b, has_lengths cfg -> benign (loads cfg cd hexbm b).
+(* the merchant-field processor splits text: a configuration that puts it, WITH a pattern, on an int / datetime element is a
+   caller error (re.match then raises TypeError whatever the message says); without a pattern it does nothing *)
+Definition de43_on_text (cfg : cfgT) : Prop :=
+  forall n c, cfg_get cfg n = Some c -> f_proc c = PDE43 -> f_ptype c <> PTStr -> f_de43 c = D43None.
+
+Theorem C07_loads_total : forall cfg cd hexbm b, has_lengths cfg -> de43_on_text cfg -> benign (loads cfg cd hexbm b).
 Proof. exact c07_loads_total. Qed.
 Print Assumptions C07_loads_total.
 
@@ -33,10 +38,15 @@ Proof. exact c07_vbs_reader_total. Qed.
 Print Assumptions C07_vbs_reader_total.
 
 (* IPM reader *)
-Theorem C07_ipm_reader_total : forall B maxlen cfg cd f blocked, 0 < B -> has_lengths cfg ->
+Theorem C07_ipm_reader_total : forall B maxlen cfg cd f blocked, 0 < B -> has_lengths cfg -> de43_on_text cfg ->
   benign (iread_all B maxlen cfg cd f blocked).
 Proof. exact c07_ipm_reader_total. Qed.
 Print Assumptions C07_ipm_reader_total.
+
+(* the packaged configuration is such a configuration (generated obligation, re-proved on every run) *)
+Theorem C07_packaged_sane : has_lengths CU.gen.GenConfig.packaged_bit_config /\ de43_on_text CU.gen.GenConfig.packaged_bit_config.
+Proof. exact c07_packaged_sane. Qed.
+Print Assumptions C07_packaged_sane.
 
 (* non-vacuity: the historical hanging input (PDS sub-length -07) is now refused, on the packaged configuration *)
 Example C07_example :
